@@ -322,6 +322,20 @@ func (p *provider) holds(d *Descriptor) bool {
 	return false
 }
 
+// outputSiblingCreated reports whether another output of the same multi-output
+// registration already has its singleton instance.
+func (p *provider) outputSiblingCreated(d *Descriptor) bool {
+	for _, output := range d.outputs {
+		if output == d || !p.holds(output) {
+			continue
+		}
+		if _, ok := p.getSingleton(instanceKey{Type: output.Type, Key: output.Key, Group: output.Group}); ok {
+			return true
+		}
+	}
+	return false
+}
+
 // findGroupDescriptors finds all descriptors for a specific type within a group.
 // Returns an empty slice if the type is nil, group is empty, or no services are found.
 func (p *provider) findGroupDescriptors(serviceType reflect.Type, group string) []*Descriptor {
@@ -386,6 +400,12 @@ func (p *provider) createAllSingletonsWithContext(ctx context.Context) error {
 
 		// Check if already created
 		if _, exists := p.getSingleton(key); exists {
+			continue
+		}
+
+		// The constructor of a registration with several outputs ran when its first
+		// output was created: an output it left nil is no reason to run it again
+		if p.outputSiblingCreated(descriptor) {
 			continue
 		}
 
